@@ -29,6 +29,7 @@ def run(ctx):
         return
     rep.saw(b)
     pl = PairLoops(f, b, 'Potential', 'energy')
+    b = pl.b            # the nest form of the score function
     cfg, tr = pl.cfg, pl.tr
     # ---- R1 sign and normalisation ---------------------------------------------------------
     somes = []
@@ -65,23 +66,61 @@ def run(ctx):
                   'the LJ score is not -(energy sum)/(number of molecules): %s' % why)
     if sum_local is None:
         return
-    # sum: 0 then sum + w*e only
-    defs = tr.defs.of(sum_local)
+    # sum: 0 then sum + w*e only.  The running total may be handed through copies (a helper's parameter and result, a
+    # fold's accumulator): take the web of locals connected to it by plain copies and classify every other definition.
+    web = {sum_local}
+    changed = True
+    while changed:
+        changed = False
+        for l in range(len(b.locals)):
+            for (dbi, si, kind, rv) in tr.defs.of(l):
+                if dbi not in cfg.reach or kind != 'assign' or rv['r'] != 'use' or 'l' not in rv['a']:
+                    continue
+                o = tr.origin(rv['a'])
+                if o['o'] == 'local' and not o['p']:
+                    if o['l'] in web and l not in web:
+                        web.add(l)
+                        changed = True
+                    elif l in web and o['l'] not in web:
+                        web.add(o['l'])
+                        changed = True
     acc = []
     okd = True
-    for (dbi, si, kind, rv) in defs:
-        if dbi not in cfg.reach:
-            continue
-        if kind == 'assign' and rv['r'] == 'use' and rv['a'].get('k') == 'const' and const_value(rv['a']) == 0.0:
-            continue
-        if kind == 'assign' and rv['r'] == 'binop' and rv['op'] == 'Add':
-            ops = [rv['a'], rv['b']]
-            selfs = [o for o in ops if o.get('l') == sum_local and not o.get('p')]
-            if len(selfs) == 1:
-                other = ops[1 - ops.index(selfs[0])]
-                acc.append((dbi, si, other))
+    n_init = 0
+    for wl in sorted(web):
+        for (dbi, si, kind, rv) in tr.defs.of(wl):
+            if dbi not in cfg.reach:
                 continue
-        okd = False
+            if kind != 'assign':
+                okd = False
+                continue
+            if rv['r'] == 'use':
+                o = tr.origin(rv['a'])
+                if o['o'] == 'const' and const_value(o['c']) == 0.0:
+                    n_init += 1
+                    continue
+                if o['o'] == 'local' and not o['p'] and o['l'] in web:
+                    continue
+                if o['o'] == 'rvalue' and not o['p']:
+                    rv = o['rv']
+                    dbi, si = o.get('bb', dbi), o.get('si', si)
+                else:
+                    okd = False
+                    continue
+            if rv['r'] == 'binop' and rv['op'] == 'Add':
+                ops = [rv['a'], rv['b']]
+                selfs = []
+                for x in ops:
+                    ox = tr.origin(x)
+                    if ox['o'] == 'local' and not ox['p'] and ox['l'] in web:
+                        selfs.append(x)
+                if len(selfs) == 1:
+                    other = ops[1 - ops.index(selfs[0])]
+                    if (dbi, si) not in [(a[0], a[1]) for a in acc]:
+                        acc.append((dbi, si, other))
+                    continue
+            okd = False
+    okd = okd and n_init >= 1
     rep.check(okd, 'R1', 'sum-starts-at-zero-and-only-accumulates', where(b), 'sum := 0; sum := sum + term',
               'the energy accumulator is assigned something other than 0 / sum + term')
     rep.floor('R1', 'energy accumulation sites', len(acc), 2, where(b))
